@@ -266,3 +266,8 @@ Definition no_dot_key (x : sseg) : bool :=
 
 (* the segments a styled sequence denotes *)
 Definition segs_of (l : list sseg) : list seg := map fst l.
+
+(* the property's own exclusion: a dot-notation text whose first character is
+   "/" (such a text is forward-slash notation by the notation's definition) *)
+Definition dot_text_ok (sp : sep) (text : string) : bool :=
+  match sp with Dot => first_not_in ["/"%char] text | Slash => true end.
